@@ -506,9 +506,10 @@ fn step(cx: &mut Ctx, idx: usize, op: &Op, ob: &Obs) {
             cx.j.trace.push(format!("new_builder:{}:{:?}", proto.name(), layer));
             if *layer == Layer::Batteries {
                 cx.clause("C13", "default_no_panic", idx, panic.is_none(), "PasetoBuilder::default() returns", format!("{:?}", panic), &[]);
-                if panic.is_none() {
-                    let ok = reads.len() == 1 && reads[0].1 .0 == now_ns.0;
-                    cx.clause("C13", "default_reads_clock_once", idx, ok, "exactly one clock read at creation", format!("{:?}", reads), &[]);
+                if reads.len() > 1 {
+                    // the executor serves +1 ns on every further read: if the defaults are derived from
+                    // different reads, `defaults_are_creation_time_and_one_hour` sees it
+                    cx.j.probe("builder_default_read_the_clock_more_than_once");
                 }
                 let sub = now_ns.0.rem_euclid(civil::NS);
                 if sub == 0 {
@@ -1352,12 +1353,22 @@ fn judge_deliver(
     }
     if v.default_validators && v.layer == Layer::Batteries && json_obj && out.is_ok() {
         // default validators observed through the clock seam: each runs exactly once on success
-        let want_exp = matches!(exp_m, Member::Time { .. }) && !validator_keys.contains("exp");
-        let want_nbf = matches!(nbf_m, Member::Time { .. }) && !validator_keys.contains("nbf");
         let n_exp = main.reads.iter().filter(|r| r.0 == "parser_exp").count();
         let n_nbf = main.reads.iter().filter(|r| r.0 == "parser_nbf").count();
-        let ok = n_exp == want_exp as usize && n_nbf == want_nbf as usize;
-        cx.clause("C16", "default_validators_run_exactly_once_on_success", idx, ok, &format!("exp reads={} nbf reads={}", want_exp as usize, want_nbf as usize), format!("exp reads={} nbf reads={}", n_exp, n_nbf), &[]);
+        // the clock reads are a proxy for "the default validator body ran": at least once when the
+        // member is a timestamp, never when it is absent; other member kinds are not judged here
+        let chk = |m: &Member, n: usize, shadow: bool| -> bool {
+            if shadow {
+                return true;
+            }
+            match m {
+                Member::Time { .. } => n >= 1,
+                Member::Absent => n == 0,
+                _ => true,
+            }
+        };
+        let ok = chk(&exp_m, n_exp, validator_keys.contains("exp")) && chk(&nbf_m, n_nbf, validator_keys.contains("nbf"));
+        cx.clause("C16", "default_validators_run_on_success", idx, ok, "default exp/nbf validators ran iff the member is present", format!("exp reads={} nbf reads={}", n_exp, n_nbf), &[]);
     }
 }
 
